@@ -180,6 +180,10 @@ void ParMatrix::mult_T(ParVector& x, ParVector& b, bool tap)
     {
         on_proc->mult_T(x.local, b.local);
     }
+    else
+    {
+        b.local.set_const_value(0.0);
+    }
 
     comm->complete_comm_T<double>(b.local.values, off_proc->b_cols);
 }
@@ -203,6 +207,10 @@ void ParMatrix::tap_mult_T(ParVector& x, ParVector& b)
     if (local_num_rows)
     {
         on_proc->mult_T(x.local, b.local);
+    }
+    else
+    {
+        b.local.set_const_value(0.0);
     }
 
     tap_comm->complete_comm_T<double>(b.local.values, off_proc->b_cols);
